@@ -78,7 +78,23 @@ def requires_of(con):
     return [x[0] if isinstance(x, tuple) else x for x in r]
 
 
+def _plain(x, d=0):
+    import collections.abc as abc
+    if d > 6:
+        return False
+    if x is None or isinstance(x, (bool, int, float, complex, str, bytes, bytearray)):
+        return True
+    if isinstance(x, abc.Mapping):
+        return all(_plain(k, d + 1) and _plain(v, d + 1) for k, v in x.items())
+    if isinstance(x, (list, tuple, set, frozenset)):
+        return all(_plain(v, d + 1) for v in x)
+    return False
+
+
 def snapshot(x):
+    """deep snapshot of interchange-style arguments (the frame check is about the DATA passed in)"""
+    if not _plain(x) and not type(x).__name__ == 'BareMapping':
+        return None
     try:
         return copy.deepcopy(x)
     except Exception:
@@ -87,7 +103,7 @@ def snapshot(x):
 
 def same(a, b):
     try:
-        return a == b and repr(a) == repr(b)
+        return type(a) is type(b) and a == b
     except Exception:
         return True
 
@@ -125,6 +141,9 @@ def check_call(rt, key, con, fn, params, args, want_kind, desc):
                 e2 = dict(env)
                 e2.update(extra)
                 ps = f.__code__.co_varnames[:f.__code__.co_argcount]
+                for n in ps:
+                    if n not in e2 and n.startswith('final_'):
+                        raise rt.NotCheckable('final state of a local')
                 return f(*[e2[n] for n in ps])
             if mode == 'iff':
                 accv = bool(ev({}))
